@@ -56,6 +56,9 @@ func drawRtCfg(e *Env) rtCfg {
 	p := e.Spec.Prop
 	c.Retain = []uint{0, 1, 2, 3, 5, 8, 32, 64}[e.Choose("cfg.retain", 8)]
 	c.P = e.PickDur("cfg.P", 20*time.Millisecond, 5*time.Millisecond, 0)
+	if e.Choose("cfg.Psmall", 5) == 0 {
+		c.P = []time.Duration{500 * time.Microsecond, time.Millisecond, 2 * time.Millisecond}[e.Choose("cfg.Psmallv", 3)] // the short end of the range
+	}
 	c.Senders = 1 + e.Choose("cfg.senders", 8)
 	c.SendsEach = 1 + e.Choose("cfg.sends", 12)
 	c.Think = e.Choose("cfg.think", 2) == 1
